@@ -12,6 +12,7 @@ import (
 	"encoding/json"
 	"fmt"
 	"os"
+	"strconv"
 	"sync"
 	"testing"
 	"time"
@@ -159,7 +160,11 @@ func TestReplay(t *testing.T) {
 	}
 	known := ev.Guard(func() {
 		soft := 0
-		for i := 0; i < 60; i++ {
+		runs := 60
+		if n, _ := strconv.Atoi(os.Getenv("C03_REPLAY_RUNS")); n > 0 {
+			runs = n // hunting a rare interleaving by hand
+		}
+		for i := 0; i < runs; i++ {
 			res := runScenario(v.Scenario)
 			if res.Infra != "" {
 				t.Logf("infra: %s", res.Infra)
